@@ -208,7 +208,27 @@ class Prob:
     def build(self):
         from nucs.problems.problem import Problem
 
-        p = Problem(list(self.shr), list(self.idx), list(self.off))
+        # the variable-adding API is exercised when the shape allows it: the last t variables together with the last t shared
+        # domains are added through add_variable / add_variables (each call appends one shared domain AND one variable), the rest
+        # through the constructor; the resulting lists must be exactly (shr, idx, off)
+        nshr, nvars = len(self.shr), len(self.idx)
+        t = 0
+        for cand in (2, 1):
+            a, b = nshr - cand, nvars - cand
+            if a >= 1 and b >= 1 and all(i < a for i in self.idx[:b]) and (nshr + nvars + len(self.props)) % 2 == 0:
+                t = cand
+                break
+        if t == 0:
+            p = Problem(list(self.shr), list(self.idx), list(self.off))
+        else:
+            a, b = nshr - t, nvars - t
+            p = Problem(list(self.shr[:a]), list(self.idx[:b]), list(self.off[:b]))
+            if t == 1:
+                p.add_variable(tuple(self.shr[a]), self.idx[b], self.off[b])
+            else:
+                p.add_variables([tuple(d) for d in self.shr[a:]], list(self.idx[b:]), list(self.off[b:]))
+            assert [tuple(d) for d in p.shr_domains_lst] == [tuple(d) for d in self.shr] and list(p.dom_indices_lst) == list(self.idx) \
+                and list(p.dom_offsets_lst) == list(self.off), "harness: add_variable(s) did not produce the intended problem"
         # both posting APIs are exercised: one by one, in bulk, or a mixture (chosen deterministically from the problem)
         triples = [(list(v), alg_index(a), list(ps)) for v, a, ps in self.props]
         mode = (len(triples) + sum(len(v) for v, _, _ in triples) + len(self.shr)) % 3
